@@ -178,3 +178,39 @@ def same(a, b, rtol=0.0, atol=0.0):
         if rtol or atol:
             eq |= np.abs(a - b) <= atol + rtol * np.maximum(np.abs(a), np.abs(b))
     return bool(np.all(eq))
+
+
+def failpoint_cfgs(cfg, ref, max_lagrange=6, max_ratio=6):
+    """Derived cfgs that inject, at calls spread over the reference run, (a) a LinAlgError inside the Lagrange solve and
+    (b) a 'model increases along the step' verdict in the acceptance test. Needs engine.install_failpoints() before the
+    reference run (it counts the calls)."""
+    out = []
+    for name, key, mx in (("lagrange", "lagrange_calls", max_lagrange), ("tr_increase", "ratio_calls", max_ratio)):
+        L = int(ref.ctx.extra.get(key, 0))
+        if not L or not mx:
+            continue
+        for j in sorted(set(int(v) for v in np.unique(np.linspace(1, L, mx).astype(int)))):
+            c2 = copy.deepcopy(cfg)
+            c2["failpoint"] = dict(name=name, at=j)
+            c2["_derived"] = dict(kind="failpoint-" + name, j=j, of=L)
+            out.append(c2)
+    return out
+
+
+def maybe_failpoint(cfg, rng, p=0.1, max_at=40):
+    """With probability p put one failpoint somewhere in the run (a count beyond the run's length simply never fires).
+    Drawn from its own stream so that the configuration itself is the one generated without this call."""
+    r2 = np.random.default_rng([int(rng.integers(0, 2 ** 31)), 77])
+    if r2.random() < p and not cfg.get("proj"):
+        name = "lagrange" if r2.random() < 0.5 else "tr_increase"
+        hi = max_at * (3 if name == "lagrange" else 1)
+        cfg["failpoint"] = dict(name=name, at=int(np.ceil(hi ** r2.random())))   # log-uniform: early calls as likely as late ones
+    return cfg
+
+
+def failpoint_stats(run, st):
+    x = run.ctx.extra
+    if x.get("lagrange_failed_from"):
+        st["failpoint_fired_in|" + x["lagrange_failed_from"]] = st.get("failpoint_fired_in|" + x["lagrange_failed_from"], 0) + 1
+    if x.get("tr_increase_fired"):
+        st["failpoint_fired_in|calculate_ratio"] = st.get("failpoint_fired_in|calculate_ratio", 0) + 1
